@@ -321,20 +321,34 @@ def parse_path(d):
 
 
 def parse_svg(doc):
+    """Lenient about *absent* parts (an absent transform is the identity, an absent layer is empty, an absent axis line
+    is reported to the properties that own it); anything that is present but unreadable is a harness error."""
     try:
         root = ET.fromstring(doc)
-        out = {"width": root.get("width"), "height": root.get("height")}
+    except ET.ParseError as e:
+        raise Violation("svg-not-well-formed", "the SVG export is not well-formed XML: %s" % e)
+    try:
+        out = {"width": root.get("width"), "height": root.get("height"), "problems": []}
         g0 = root[0]
-        out["margin"] = _tr(g0.get("transform"))
-        main = [g for g in g0 if g.get("class") == "main-layer"][0]
-        out["main"] = _tr(main.get("transform"))
+        out["margin"] = _tr(g0.get("transform")) if g0.get("transform") else (0.0, 0.0)
+        mains = [g for g in g0 if g.get("class") == "main-layer"]
+        if not mains:
+            raise HarnessError("no main-layer group")
+        main = mains[0]
+        out["main"] = _tr(main.get("transform")) if main.get("transform") else (0.0, 0.0)
         line = main.find("./g/line[@class='timeline']")
-        out["axis"] = (float(line.get("x2", "0")), float(line.get("y2", "0")))
+        if line is None:
+            out["axis"] = None
+            out["problems"].append(("axis", "axis-line-missing", "the SVG export draws no axis line"))
+        else:
+            out["axis"] = (float(line.get("x2", "0")), float(line.get("y2", "0")))
         ax = main.find("./g[@class='axis-layer']")
         out["ticks"] = None if ax is None else [(_tr(t.get("transform")), t.find("text").text or "") for t in ax]
-        out["links"] = [(parse_path(p.get("d")), _rgb(p.get("style"))) for p in main.find("./g[@class='link-layer']")]
+        ll = main.find("./g[@class='link-layer']")
+        out["links"] = [(parse_path(p.get("d")), _rgb(p.get("style"))) for p in (ll if ll is not None else [])]
         labs = []
-        for g in main.find("./g[@class='label-layer']"):
+        lay = main.find("./g[@class='label-layer']")
+        for g in (lay if lay is not None else []):
             r = g.find("rect")
             t = g.find("text")
             stl = r.get("style")
@@ -343,15 +357,16 @@ def parse_svg(doc):
             m = re.search(r"stroke:(rgb\([^)]*\))", stl)
             if m:
                 border = _rgb(m.group(1))
-            labs.append(dict(origin=_tr(g.get("transform")), w=float(r.get("width")), h=float(r.get("height")), fill=fill, border=border,
+            labs.append(dict(origin=_tr(g.get("transform")) if g.get("transform") else (0.0, 0.0), w=float(r.get("width")), h=float(r.get("height")), fill=fill, border=border,
                              text=None if t is None else (t.text or ""), textcolor=None if t is None else _rgb(t.get("style"))))
         out["labels"] = labs
-        out["dots"] = [((float(c.get("cx", "0")), float(c.get("cy", "0"))), float(c.get("r")), _rgb(c.get("style"))) for c in main.find("./g[@class='dot-layer']")]
+        dl = main.find("./g[@class='dot-layer']")
+        out["dots"] = [((float(c.get("cx", "0")), float(c.get("cy", "0"))), float(c.get("r")), _rgb(c.get("style"))) for c in (dl if dl is not None else [])]
         return out
-    except HarnessError:
+    except (HarnessError, Violation):
         raise
     except Exception as e:
-        raise HarnessError("SVG parser: %r (the emitter's surface syntax changed or the document is not well-formed XML)" % (e,))
+        raise HarnessError("SVG parser: %r (the emitter's surface syntax changed)" % (e,))
 
 
 def _hex(s):
@@ -381,11 +396,20 @@ def parse_tex(s):
         body = s[s.index("\\begin{tikzpicture}"):]
         sec = re.split(r"^% (shift for the margin|main layer|axis layer|axis|link layer|label layer|dots)$", body, flags=re.M)
         secs = {sec[i]: sec[i + 1] for i in range(1, len(sec), 2)}
-        sh = lambda t: tuple(float(x) for x in re.search(r"shift=\{\(%s, %s\)\}" % (NUM, NUM), t).groups())
-        out["margin"] = sh(secs["shift for the margin"])
-        out["main"] = sh(secs["main layer"])
-        m = re.search(r"\(0, 0\) -- \(%s, %s\);" % (NUM, NUM), secs["axis"])
-        out["axis"] = (float(m.group(1)), float(m.group(2)))
+        def shift_of(name):
+            m_ = re.search(r"shift=\{\(%s, %s\)\}" % (NUM, NUM), secs.get(name, ""))
+            return tuple(float(x) for x in m_.groups()) if m_ else (0.0, 0.0)  # no shifted scope = no shift
+
+        out["margin"] = shift_of("shift for the margin")
+        out["main"] = shift_of("main layer")
+        m = re.search(r"\(0, 0\) -- \(%s, %s\);" % (NUM, NUM), secs.get("axis", ""))
+        if m:
+            out["axis"] = (float(m.group(1)), float(m.group(2)))
+        else:
+            out["axis"] = None
+            problems.append(("axis", "axis-line-missing", "the TikZ export draws no axis line"))
+        for name in ("link layer", "label layer", "dots"):
+            secs.setdefault(name, "")
         if "axis layer" in secs:
             out["ticks"] = [((float(a), float(b)), t) for a, b, t in re.findall(r"\\begin\{scope\}\[shift=\{\(%s, %s\)\}\]\n\\draw[^\n]*\nnode\[anchor=\w+\] \{(.*)\};" % (NUM, NUM), secs["axis layer"])]
         else:
@@ -455,7 +479,7 @@ def check_c07(spec, P, tl_obj, backend, today):
     data = spec["data"]
     n = len(data)
     for topic, bucket, msg in P.get("problems", []):
-        if topic == "text":
+        if topic in ("text", "axis"):
             raise Violation(bucket, msg)
     if not (len(P["dots"]) == len(P["links"]) == len(P["labels"]) == n):
         raise Violation("counts", "%d data but %d dots, %d links, %d boxes" % (n, len(P["dots"]), len(P["links"]), len(P["labels"])))
@@ -650,7 +674,7 @@ def check_c08(spec, P, info):
 
 
 def check_c09(S, T, spec):
-    for topic, bucket, msg in T.get("problems", []):
+    for topic, bucket, msg in list(S.get("problems", [])) + list(T.get("problems", [])):
         raise Violation(bucket, msg)
     for key in ("axis", "main"):
         if S[key] != T[key]:
